@@ -5,6 +5,9 @@ VERIF = os.path.dirname(os.path.dirname(os.path.abspath(__file__)))
 pid, out = sys.argv[1], sys.argv[2]
 extra = sys.argv[3:]
 tag = ""
+nocheck = "--no-check" in extra
+if nocheck:
+    extra.remove("--no-check")
 if "--tag" in extra:
     i = extra.index("--tag")
     tag = extra[i + 1]
@@ -29,6 +32,9 @@ for m in sorted(os.listdir(out)):
     meta = json.load(open(os.path.join(d, "meta.json")))
     meta["verified"] = res
     meta["verified_with"] = "tools/verify_seeded.py (scratch worktree: suite passes with the change, demo fails with / passes without)"
+    if nocheck:
+        json.dump(meta, open(os.path.join(dst, "meta.json"), "w"), indent=1)
+        continue
     t = subprocess.run([os.path.join(VERIF, "tools", "try_seeded.py"), os.path.join(dst, "patch.diff"), pid] + extra, capture_output=True, text=True)
     lines = [l for l in t.stdout.splitlines() if l.strip()]
     print("   ", "\n    ".join(lines))
